@@ -41,7 +41,7 @@ Section WithEnv.
 Variable env : Env.
 
 (* ---- vehicles ---- *)
-Definition add_vehicle (s : Sim) (v : Vehicle) : res Sim :=
+Definition add_vehicle_new (s : Sim) (v : Vehicle) : res Sim :=
   if negb (e_fence env (v_geoid v)) then Err
   else Ok (s <| vehicles := PM.add (v_id v) v (vehicles s) |>
              <| v_loc := add_to_coll (v_loc s) (v_geoid v) (v_id v) |>
@@ -55,6 +55,13 @@ Definition modify_vehicle (s : Sim) (v : Vehicle) : res Sim :=
       else let '(ents, locs, srch) :=
              update_entity_dicts v_geoid v_id (e_parent env) old v (vehicles s) (v_loc s) (v_search s) in
            Ok (s <| vehicles := ents |> <| v_loc := locs |> <| v_search := srch |>)
+  end.
+
+(* add_vehicle_safe: re-adding an id that is present goes through modify (fix for the stale-index defect) *)
+Definition add_vehicle (s : Sim) (v : Vehicle) : res Sim :=
+  match find (v_id v) (vehicles s) with
+  | Some _ => modify_vehicle s v
+  | None => add_vehicle_new s v
   end.
 
 Definition remove_vehicle (s : Sim) (vid : id) : res Sim :=
@@ -73,7 +80,7 @@ Definition pop_vehicle (s : Sim) (vid : id) : res (Sim * Vehicle) :=
   end.
 
 (* ---- requests ---- *)
-Definition add_request (s : Sim) (r : Request) : res Sim :=
+Definition add_request_new (s : Sim) (r : Request) : res Sim :=
   if negb (e_fence env (r_geoid r)) then Err
   else Ok (s <| requests := PM.add (r_id r) r (requests s) |>
              <| r_loc := add_to_coll (r_loc s) (r_geoid r) (r_id r) |>
@@ -90,6 +97,13 @@ Definition modify_request (s : Sim) (r : Request) : res Sim :=
            Ok (s <| requests := ents |> <| r_loc := locs |> <| r_search := srch |>)
   end.
 
+(* add_request_safe: re-adding an id that is present goes through modify (fix for the stale-index defect) *)
+Definition add_request (s : Sim) (r : Request) : res Sim :=
+  match find (r_id r) (requests s) with
+  | Some _ => modify_request s r
+  | None => add_request_new s r
+  end.
+
 Definition remove_request (s : Sim) (rid : id) : res Sim :=
   match find rid (requests s) with
   | None => Err
@@ -100,7 +114,7 @@ Definition remove_request (s : Sim) (rid : id) : res Sim :=
   end.
 
 (* ---- stations ---- *)
-Definition add_station (s : Sim) (st : Station) : res Sim :=
+Definition add_station_new (s : Sim) (st : Station) : res Sim :=
   if negb (e_fence env (s_geoid st)) then Err
   else Ok (s <| stations := PM.add (s_id st) st (stations s) |>
              <| s_loc := add_to_coll (s_loc s) (s_geoid st) (s_id st) |>
@@ -115,6 +129,13 @@ Definition modify_station (s : Sim) (st : Station) : res Sim :=
       else Ok (s <| stations := PM.add (s_id st) st (stations s) |>)
   end.
 
+(* add_station_safe: re-adding an id that is present goes through modify (fix for the stale-index defect) *)
+Definition add_station (s : Sim) (st : Station) : res Sim :=
+  match find (s_id st) (stations s) with
+  | Some _ => modify_station s st
+  | None => add_station_new s st
+  end.
+
 Definition remove_station (s : Sim) (sid : id) : res Sim :=
   match find sid (stations s) with
   | None => Err
@@ -125,7 +146,7 @@ Definition remove_station (s : Sim) (sid : id) : res Sim :=
   end.
 
 (* ---- bases ---- *)
-Definition add_base (s : Sim) (b : Base) : res Sim :=
+Definition add_base_new (s : Sim) (b : Base) : res Sim :=
   if negb (e_fence env (b_geoid b)) then Err
   else Ok (s <| bases := PM.add (b_id b) b (bases s) |>
              <| b_loc := add_to_coll (b_loc s) (b_geoid b) (b_id b) |>
@@ -138,6 +159,13 @@ Definition modify_base (s : Sim) (b : Base) : res Sim :=
       if negb (Pos.eqb (b_geoid old) (b_geoid b)) then Err
       else if negb (e_fence env (b_geoid b)) then Err
       else Ok (s <| bases := PM.add (b_id b) b (bases s) |>)
+  end.
+
+(* add_base_safe: re-adding an id that is present goes through modify (fix for the stale-index defect) *)
+Definition add_base (s : Sim) (b : Base) : res Sim :=
+  match find (b_id b) (bases s) with
+  | Some _ => modify_base s b
+  | None => add_base_new s b
   end.
 
 Definition remove_base (s : Sim) (bid : id) : res Sim :=
